@@ -390,7 +390,7 @@ func verifC09IdentifyRanges() {
 	n := verifShellNSQD(o)
 	cl, _ := verifClient(n, 1, nil)
 	d := identifyDataV2{
-		HeartbeatInterval:   verifrt.Int("heartbeat_interval"),
+		HeartbeatInterval: verifrt.Int("heartbeat_interval"),
 		// the buffer size becomes an allocation: boundary values instead of a symbolic length
 		OutputBufferSize:    []int{-2, -1, 0, 63, 64, 4096, 4097}[verifrt.Choice("output_buffer_size", 7)],
 		OutputBufferTimeout: verifrt.Int("output_buffer_timeout"),
